@@ -760,3 +760,13 @@ def render_translations(ctx):
         ok = all(isinstance(st.value, ast.Name) and st.value.id == "relative_length" for st in fb)
         ctx.ob("R04.11", "Matrix.render[%s fallback]" % dim, ok, "; ".join(ast.unparse(st) for st in fb) or "none (the fallback works on a local standing for it)", fn.lineno,
                "a missing %s falls back to relative_length, nothing else" % dim)
+
+
+def inverse_rule(ctx, rule):
+    """~A is the two-sided inverse of A under the implemented product (identities of the implemented formulas)."""
+    A = MS.sym_matrix("A")
+    mul = MS.multiply_formula(ctx, rule)
+    inv = MS.inverse_formula(ctx, rule)(A)
+    for nm, p in (("A*~A", mul(A, inv)), ("~A*A", mul(inv, A))):
+        ctx.ob(rule, "inverse two-sided [%s]" % nm, MS.eq6(p, MS.IDENT), "; ".join(str(c) for c in p)[:200], ctx.fn("Matrix.inverse").lineno,
+               "the implemented inverse is not the inverse of the implemented product: what the writer divides out is not what the reader multiplies in")
